@@ -50,6 +50,33 @@ var trConfs = []trConf{
 		params: []trParam{{"d", "Int"}}},
 	{key: "x/valset/keeper.calculateJailSentenceResetThreshold", lean: "calculateJailSentenceResetThreshold", ret: "Int",
 		params: []trParam{{"d", "Int"}}},
+	{key: "x/skyway/keeper.Keeper.Attest", lean: "attest", ret: "AttestOutcome",
+		prelude: "/-- what `Attest` does with a claim message: refuse it (1 orchestrator / address problem, 2 not the validator's next nonce,\n    3 claim hash, 4 stored claim undecodable, 5 remote height differs from the stored claim's, 6 store failure) or store the\n    attestation with this vote list and move the validator's nonce -/\ninductive AttestOutcome where\n  | rejected (code : Nat)\n  | voted (votes : List Nat)\nderiving DecidableEq, Repr",
+		params: []trParam{{"validatorFound", "Bool"}, {"validator", "Nat"}, {"validatorNonce", "UInt64"}, {"claimNonce", "UInt64"},
+			{"claimHeight", "UInt64"}, {"attStored", "Bool"}, {"storedVotes", "List Nat"}, {"storedHeight", "UInt64"}},
+		init: []string{"let mut err : Nat := 0", "let mut attVotes : List Nat := storedVotes", "let mut attHeight : UInt64 := storedHeight", "let mut lastSkywayNonce : UInt64 := 0"},
+		atoms: map[string]string{"err != nil": "err != 0", "found": "validatorFound", "claim.GetSkywayNonce()": "claimNonce",
+			"att == nil": "!attStored", "ethClaim.GetEthBlockHeight()": "attHeight", "claim.GetEthBlockHeight()": "claimHeight",
+			"slices.Contains(att.Votes, valAddr)": "attVotes.contains validator"},
+		skip: []string{"val, found, err := k.GetOrchestratorValidator(ctx, claim.GetClaimer())", "valAddr := val.GetOperator()",
+			"valAddress, err := utilkeeper.ValAddressFromBech32(k.AddressCodec, val.GetOperator())",
+			"hash, err := claim.ClaimHash()", "att := k.GetAttestation(ctx, claim.GetChainReferenceId(), claim.GetSkywayNonce(), hash)",
+			"sdkCtx := sdk.UnwrapSDKContext(ctx)", "ethClaim, err := k.UnpackAttestationClaim(att)",
+			"k.SetAttestation(ctx, claim.GetChainReferenceId(), claim.GetSkywayNonce(), hash, att)"},
+		stmts: map[string][]string{
+			"if err := sdk.VerifyAddressFormat(valAddress); err != nil { return nil, sdkerrors.Wrap(err, \"invalid orchestrator validator address\") }": {},
+			"lastSkywayNonce, err := k.GetLastSkywayNonceByValidator(ctx, valAddress, claim.GetChainReferenceId())":                                          {"lastSkywayNonce := validatorNonce"},
+			"att = &types.Attestation{ Observed: false, Votes: []string{}, Height: uint64(sdkCtx.BlockHeight()), Claim: anyClaim, }":                       {"attVotes := []", "attHeight := claimHeight"},
+			"att.Votes = append(att.Votes, valAddr)": {"attVotes := attVotes ++ [validator]"},
+			"err = k.SetLastSkywayNonceByValidator(ctx, valAddress, claim.GetChainReferenceId(), claim.GetSkywayNonce())": {"err := 0"},
+		},
+		returns: map[string]string{"return nil, err": ".rejected 6",
+			"return nil, fmt.Errorf(\"could not find ValAddr for delegate key, should be checked by now\")": ".rejected 1",
+			"return nil, fmt.Errorf(types.ErrNonContiguousEventNonce.Error(), lastSkywayNonce+1, claim.GetSkywayNonce())": ".rejected 2",
+			"return nil, sdkerrors.Wrap(err, \"unable to compute claim hash\")":                                          ".rejected 3",
+			"return nil, fmt.Errorf(\"could not unpack stored attestation claim, %v\", err)":                             ".rejected 4",
+			"return att, nil": ".voted attVotes",
+			"return nil, fmt.Errorf(\"invalid height - this claim's height is %v while the stored height is %v\", claim.GetEthBlockHeight(), ethClaim.GetEthBlockHeight())": ".rejected 5"}},
 	{key: "x/skyway/keeper.Keeper.TryAttestation", lean: "tryAttestation", ret: "AttOutcome",
 		prelude: "/-- what `TryAttestation` decides: `error c` = it returned an error (1 a store / codec failure, 2 the remote height was refused,\n    3 the claim is out of order, 4 the observation event could not be emitted AFTER the claim was applied, 9 already observed),\n    `pending` = not enough voting power yet, `observed` = marked observed and handed to the handler -/\ninductive AttOutcome where\n  | error (code : Nat) | pending | observed\nderiving DecidableEq, Repr",
 		params: []trParam{{"alreadyObserved", "Bool"}, {"totalPower", "Int"}, {"votes", "List Nat"}, {"power", "Nat → Int"},
